@@ -7,7 +7,7 @@ func (cw *CodeWriter) AddMapping(pos token.Position) {
 	if cw.Mapper == nil {
 		return
 	}
-	cw.Mapper.AddMapping(pos.Line, pos.Column)
+	cw.mappings = append(cw.mappings, pendingMapping{line: pos.Line, column: pos.Column})
 }
 
 func (cw *CodeWriter) AddNamedMapping(sourceLine, sourceColumn int, name string) {
@@ -15,5 +15,5 @@ func (cw *CodeWriter) AddNamedMapping(sourceLine, sourceColumn int, name string)
 	if cw.Mapper == nil {
 		return
 	}
-	cw.Mapper.AddNamedMapping(sourceLine, sourceColumn, name)
+	cw.mappings = append(cw.mappings, pendingMapping{line: sourceLine, column: sourceColumn, name: name, named: true})
 }
